@@ -1,14 +1,26 @@
 import Driver.Util
 import AslModel.Model.PBind
 import AslModel.Model.PList
+import AslModel.Model.FilterList
+import AslModel.Spec.FilterSet
+import AslModel.Spec.PFileSkip
 /-! Driver modes of C07.
 
 `c07-pbind` request : `<quiet 0|1> <errno0> <ops|-> <specset|-> <status> <targethex> <sums|-> <inputhex>+`
-  * ops      – the `-f`/`+f` options in order, `;`-separated, each `f:<v>,<v>…` or `n:<v>,…` (model: CMD_FilterList)
-  * specset  – the set of accepted families the options denote (set semantics, computed by the harness), `-` = no filter
+  * ops      – the `-f`/`+f` options in processing order (environment variable first), `;`-separated, each `f:<v>,<v>…` or
+               `n:<v>,…` with the decimal values of the list elements (MODEL: the array algorithm `Tools.filterOfOptions` with
+               the generated capacity; SPEC: `PFile.keepByOptions`, the documented set - both theorems of Props/C07_Filter.lean)
+  * specset  – the set the harness computed itself (cross-check of the request only: `sset=ne` if it differs from the SPEC set), `-` = no filter
   * status, targethex – exit status and target file of the real pbind; sums – the byte counts it printed (`-` when quiet)
  answer : `model=<eq|ne|stuck> sums=<eq|ne|na> spec=<ok|bad|na> why=<…> nin=<items in> nout=<items out> short=<short headers out> mstatus=<n> [mtarget=<hex>]`
-  * model – MODEL outcome (status and target bytes) = real outcome
+  * model – MODEL outcome (status and target bytes) = real outcome; `outside` = a store of CMD_FilterList left FilterBytes[] (arr=overflow)
+  * arr=<ok|overflow> cnt=<FilterCnt of the model>; skipfiles=<inputs read by `parseFileSkipping`, i.e. holding records BIND does not copy>
+
+`c07-filter` request : `<ops|-> <ids|->` – ids = the header ids (1..255, comma separated) of the one-byte probe records the real tool
+  (pbind / p2bin / p2hex) selected under these options
+ answer : `model=<eq|ne|outside> spec=<ok|bad> why=<first id that differs> arr=<ok|overflow> cnt=<n> nsel=<n>`
+  * model – for every id 1..255: selected by the real tool = `filterOKArr` of the model's array
+  * spec  – for every id 1..255: selected by the real tool = `keepByOptions` (documented set)
   * spec  – SPEC on the real target: status 0 and `parseFile target` = filtered concatenation of `parseFile` of the inputs
 
 `c07-plist` request : `<status> <stdouthex> (<namehex> <filehex>)+`
@@ -17,10 +29,10 @@ import AslModel.Model.PList
 namespace Driver.C07
 open AslModel.PFile AslModel.Tools AslModel.PList
 
-def parseVals (s : String) : Option (List UInt8) :=
-  if s = "" then some [] else (s.splitOn ",").mapM (fun x => x.toNat?.map b)
+def parseVals (s : String) : Option (List Nat) :=
+  if s = "" then some [] else (s.splitOn ",").mapM (fun x => x.toNat?)
 
-def parseOps (s : String) : Option (List (Bool × List UInt8)) :=
+def parseOps (s : String) : Option (List (Bool × List Nat)) :=
   if s = "-" then some []
   else (s.splitOn ";").mapM fun o =>
     if o.startsWith "f:" then (parseVals (o.drop 2).toString).map (fun v => (false, v))
@@ -49,36 +61,64 @@ def countShort (bs : List UInt8) : Nat :=
 def handlePbind (line : String) : String :=
   match words line with
   | q :: e0 :: ops :: sset :: status :: target :: sums :: inputs =>
-    match q.toNat?, e0.toNat?, parseOps ops, (if sset = "-" then some none else (parseVals sset).map some),
+    match q.toNat?, e0.toNat?, parseOps ops, (if sset = "-" then some none else (parseVals sset).map (fun l => some (l.map b))),
           status.toNat?, unhex target, inputs.mapM unhex with
     | some q, some e0, some ops, some sset, some rstatus, some rtarget, some ins =>
       let quiet := q != 0
-      let flt : FilterSt := ops.foldl (fun st (o : Bool × List UInt8) => filterList o.1 o.2 st) []
-      let m := pbindMain (genEnv flt) AslModel.Generated.toolFileID genCreator quiet e0 ins
-      let (mres, mstatus, mtarget, msums) := match m with
-        | none => ("stuck", 999, [], [])
-        | some o => (if o.status == rstatus && o.target == rtarget then "eq" else "ne", o.status, o.target, o.sums)
+      let arr := filterOfOptions AslModel.Generated.filterBytesCap ops
+      let evs := filterEvents ops
+      let m := match arr with
+        | some a => pbindMain (genEnv a.live) AslModel.Generated.toolFileID genCreator quiet e0 ins
+        | none => none
+      let (mres, mstatus, mtarget, msums) := match arr, m with
+        | none, _ => ("outside", 999, [], [])
+        | _, none => ("stuck", 999, [], [])
+        | _, some o => (if o.status == rstatus && o.target == rtarget then "eq" else "ne", o.status, o.target, o.sums)
       let sumsRes :=
         if sums = "-" then "na" else
         match (sums.splitOn ",").mapM String.toNat? with
-        | some l => if m.isSome && (mstatus != 0 || l == msums) then "eq" else "ne"
+        | some l => if arr.isNone then "na" else if m.isSome && (mstatus != 0 || l == msums) then "eq" else "ne"
         | none => "ne"
       -- SPEC on IMPL
-      let parsed := ins.mapM parseFile
+      -- inputs with records BIND does not copy ($82..$85, undefined kinds): the documented reader on the file without them
+      let parsed := ins.mapM (fun f => match parseFile f with | some p => some p | none => parseFileSkipping f)
+      let nskip := (ins.filter (fun f => (parseFile f).isNone && (parseFileSkipping f).isSome)).length
       let (spec, why, nin, nout) := match parsed with
         | none => ("na", "inputs-not-in-spec-format", 0, 0)
         | some ps =>
           let all := (ps.map (fun (p : List Item × List UInt8) => p.1)).flatten
-          let expected := all.filter (keepItem sset)
+          let expected := all.filter (keepByOptions evs)
           if rstatus != 0 then ("bad", s!"status-{rstatus}", all.length, 0)
           else match parseFile rtarget with
             | none => ("bad", "target-unparseable", all.length, 0)
             | some (items, _) =>
               if items == expected then ("ok", "-", all.length, items.length)
               else ("bad", "items-differ", all.length, items.length)
-      s!"model={mres} sums={sumsRes} spec={spec} why={why} nin={nin} nout={nout} short={countShort rtarget} mstatus={mstatus}" ++
+      let ssetRes := match parsed with
+        | none => "na"
+        | some ps => if ((ps.map (fun (p : List Item × List UInt8) => p.1)).flatten).all (fun i => keepItem sset i == keepByOptions evs i) then "eq" else "ne"
+      let arrS := match arr with | some a => s!"arr=ok cnt={a.cnt}" | none => "arr=overflow cnt=0"
+      s!"model={mres} sums={sumsRes} spec={spec} why={why} nin={nin} nout={nout} short={countShort rtarget} mstatus={mstatus} sset={ssetRes} {arrS} skipfiles={nskip}" ++
         (if mres == "ne" then s!" mtarget={hex (mtarget.take 3000)}" else "")
     | _, _, _, _, _, _, _ => "bad-request"
+  | _ => "bad-request"
+
+def handleFilter (line : String) : String :=
+  match words line with
+  | [ops, ids] =>
+    match parseOps ops, (if ids = "-" then some [] else parseVals ids) with
+    | some ops, some sel =>
+      let arr := filterOfOptions AslModel.Generated.filterBytesCap ops
+      let evs := filterEvents ops
+      let probe (id : Nat) : Item := .data ⟨b id, 1, 1, id, [0]⟩
+      let idsAll := (List.range 255).map (· + 1)
+      let specBad := idsAll.find? (fun id => sel.contains id != keepByOptions evs (probe id))
+      let (mres, arrS) := match arr with
+        | none => ("outside", "arr=overflow cnt=0")
+        | some a => ((if idsAll.all (fun id => sel.contains id == filterOKArr a (b id)) then "eq" else "ne"), s!"arr=ok cnt={a.cnt}")
+      let (spec, why) := match specBad with | none => ("ok", "-") | some id => ("bad", s!"id-{id}")
+      s!"model={mres} spec={spec} why={why} {arrS} nsel={sel.length}"
+    | _, _ => "bad-request"
   | _ => "bad-request"
 
 def toChars (bs : List UInt8) : List Char := bs.map byteChar
